@@ -184,9 +184,8 @@ package server
 //@ props C05
 //@ requires [C05] srv != nil && c != nil && c.opts != nil && c.rwc != nil && srv.sessionStore != nil && srv.clients != nil
 //@ monitor srv.mu protects map(srv.clients), ghost(srv.sessionStore.$has) with invariant srv.clients != nil
-//@ modifies heap
-//@ preserves all(server.*), all(client.*), all(ClientOptions.*)
-//@ abstract call client).setError pure
+//@ modifies heap, ghost(srv.sessionStore.$has), ghostall(client.$nout), ghostall(client.$lastOut)
+//@ preserves all(server.*), all(client.* - err), all(ClientOptions.*)
 //@ abstract call client).Close pure
 //@ ensures [C05] err == nil && oldSession != nil ==> oldSession.ClientID == c.opts.ClientID && srv.clients[c.opts.ClientID] == nil
 //@ ensures [C05] err != nil ==> oldSession == nil
